@@ -9,5 +9,6 @@ import (
 	_ "verifharness/props/c06"
 	_ "verifharness/props/c08"
 	_ "verifharness/props/c09"
+	_ "verifharness/props/c10"
 	_ "verifharness/props/c12"
 )
